@@ -17,10 +17,15 @@ def main():
     mod = importlib.import_module("props." + pid.lower())
     try:
         return common.main_entry(mod.run)
-    except common.BuildError as e:
-        # the framework itself could not be built against the current tree: that is a broken
-        # tie, reported as a violation without a failing input
+    except Exception as e:
+        # the framework itself could not be built against the current tree (BuildError), or a reader of the real
+        # code's output met something it cannot read (any other exception): either way the tie is broken and the
+        # property is no longer shown to hold - reported as a violation without a failing input, never as a crash
         import json, hashlib, time
+        if not isinstance(e, common.BuildError):
+            traceback.print_exc()
+            e = common.BuildError("uncaught %s in the check (a reader of the tree's output could not cope): %s\n%s" % (
+                type(e).__name__, e, traceback.format_exc()[-3000:]))
         rdir = os.path.join(common.VERIF, "replays", pid)
         os.makedirs(rdir, exist_ok=True)
         path = os.path.join(rdir, "build-" + hashlib.sha1(str(e).encode()).hexdigest()[:10] + ".json")
@@ -38,9 +43,6 @@ def main():
         json.dump(ev, open(os.path.join(common.VERIF, "evidence", pid + ".json"), "w"), indent=1)
         print("VIOLATION property=%s replay=%s no-failing-input-found" % (pid, path))
         return 1
-    except Exception:
-        traceback.print_exc()
-        return 3
 
 
 if __name__ == "__main__":
